@@ -1120,6 +1120,95 @@ theorem handleSettings_local (s : SettingsState) (cap : Nat) (es : List (Nat × 
     · exact applyPeerSetting_local s cap id v
     · rw [ih, applyPeerSetting_local]
 
+/-! ### request-level checks -/
+
+theorem headerBudgetGo_none_iff (maxBytes maxFields : Nat) (fields : List (Nat × Nat)) (bytes count : Nat) :
+    headerBudgetGo maxBytes maxFields bytes count fields = none ↔
+      (fields = [] ∨ (bytes + fieldsSize fields ≤ maxBytes ∧ count + fields.length ≤ maxFields)) := by
+  induction fields generalizing bytes count with
+  | nil => simp [headerBudgetGo]
+  | cons f r ih =>
+    obtain ⟨k, v⟩ := f
+    simp only [headerBudgetGo, fieldsSize, List.length_cons]
+    split
+    · simp; omega
+    · split
+      · simp; omega
+      · rw [ih]
+        constructor
+        · rintro (h | h)
+          · subst h; simp [fieldsSize]; omega
+          · right; omega
+        · intro h
+          simp at h
+          cases r with
+          | nil => left; rfl
+          | cons a b => right; simp only [List.length_cons] at h ⊢; omega
+
+theorem headerBudgetGo_some (maxBytes maxFields : Nat) (fields : List (Nat × Nat)) (bytes count : Nat) (o : StreamOut)
+    (h : headerBudgetGo maxBytes maxFields bytes count fields = some o) : o = .streamError ENHANCE_YOUR_CALM := by
+  induction fields generalizing bytes count with
+  | nil => simp [headerBudgetGo] at h
+  | cons f r ih =>
+    obtain ⟨k, v⟩ := f
+    simp only [headerBudgetGo] at h
+    split at h
+    · cases h; rfl
+    · split at h
+      · cases h; rfl
+      · exact ih _ _ h
+
+theorem contentLengthRun_handled (e : Nat) (frames : List (Nat × Bool)) (r t : Nat)
+    (hr : r ≤ e) (h : contentLengthRun (some e) r frames = (t, .handled)) :
+    t ≤ e ∧ (frames.any (·.2) = true → t = e) := by
+  induction frames generalizing r with
+  | nil => simp [contentLengthRun] at h; subst h; exact ⟨hr, by simp⟩
+  | cons f rest ih =>
+    obtain ⟨len, es⟩ := f
+    simp only [contentLengthRun, contentLengthStep] at h
+    by_cases h1 : r + len > e
+    · simp [h1] at h
+    · simp only [h1, if_false] at h
+      cases es with
+      | true =>
+        by_cases h2 : r + len = e
+        · simp [h2] at h ⊢; omega
+        · have : ((r + len) != e) = true := by simpa using h2
+          simp [this] at h
+      | false =>
+        simp at h
+        have := ih (r + len) (by omega) h
+        exact ⟨this.1, by simpa using this.2⟩
+
+theorem headerBudget_none_iff (maxBytes maxFields : Nat) (fields : List (Nat × Nat)) :
+    headerBudget maxBytes maxFields fields = none ↔ (fieldsSize fields ≤ maxBytes ∧ fields.length ≤ maxFields) := by
+  unfold headerBudget
+  rw [headerBudgetGo_none_iff]
+  constructor
+  · rintro (h | h)
+    · subst h; simp [fieldsSize]
+    · simpa using h
+  · intro h; right; simpa using h
+
+/-! ### header block vs buffer -/
+
+theorem continuationStep_bounded (bufCap : Nat) (s : Flood) (len : Nat) (h : s.accHdr ≤ bufCap)
+    (hn : (continuationStep bufCap s len).2 = none) : (continuationStep bufCap s len).1.accHdr ≤ bufCap := by
+  have hacc : (floodStep s (.continuation len)).1.accHdr ≤ s.accHdr + len := by
+    simp only [floodStep]
+    rw [(checkFlood_spec { s with cont := wrapInc s.cont, accHdr := satAdd32 s.accHdr len }).2.2.2.2.2.2.2.2.2.2.1]
+    exact satAdd32_le s.accHdr len
+  unfold continuationStep at hn ⊢
+  simp only at hn ⊢
+  by_cases h1 : (floodStep s (.continuation len)).2.isSome = true
+  · simp only [h1, ↓reduceIte] at hn
+    rw [hn] at h1; simp at h1
+  · simp only [h1] at hn ⊢
+    by_cases h2 : len > bufCap - s.accHdr
+    · simp [h2] at hn
+    · simp only [h2, ↓reduceIte, Bool.false_eq_true]
+      omega
+
 /-! ### proofs of the property theorems (statements: `Props.lean`) -/
 
 theorem c15_decoder_total_and_exact (input : Bytes) (mfs : Nat) :
